@@ -163,6 +163,9 @@ func (r *recTB) Failed() bool              { return r.failed }
 
 // rapidRound runs one rapid.Check with the given seed and number of cases.
 // It returns the messages rapid reported (empty = all cases passed).
+// shrinkTime bounds rapid's minimisation (some failures cost seconds per attempt).
+var shrinkTime = "60s"
+
 func rapidRound(seed uint64, checks int, prop func(*rapid.T)) (msgs []string, trouble string) {
 	if seed == 0 {
 		seed = 1
@@ -170,7 +173,7 @@ func rapidRound(seed uint64, checks int, prop func(*rapid.T)) (msgs []string, tr
 	flag.Set("rapid.seed", strconv.FormatUint(seed, 10))
 	flag.Set("rapid.checks", strconv.Itoa(checks))
 	flag.Set("rapid.nofailfile", "true")
-	flag.Set("rapid.shrinktime", "60s")
+	flag.Set("rapid.shrinktime", shrinkTime)
 	tb := &recTB{}
 	func() {
 		defer func() {
@@ -199,6 +202,8 @@ type Worker struct {
 	best    *replayFile
 	bestSz  int
 	hashLog *os.File
+	skipRest bool      // set by a property function that must not be re-run (reset after the round)
+	deadline time.Time // end of this worker's budget: property functions return at once after it
 	inflight string
 	isoCache map[string]ItemResult
 }
@@ -374,8 +379,17 @@ func (w *Worker) account(c *SimCase, st *CaseStats) {
 }
 
 // SimProperty is the rapid property for the simulator-based checks.
+// expired: the worker's budget (plus a quarter) is used up and no failure is being minimised:
+// the remaining cases of the current rapid round pass trivially so that the round ends.
+func (w *Worker) expired() bool {
+	return !w.failing && !w.deadline.IsZero() && time.Now().After(w.deadline)
+}
+
 func (w *Worker) SimProperty(prop string, draw func(Chooser, string) *SimCase) func(rt *rapid.T) {
 	return func(rt *rapid.T) {
+		if w.expired() {
+			return
+		}
 		rec := newRecorder(rt)
 		c := draw(rec, prop)
 		vs, st, trouble := ExecSimCase(w.T, c)
@@ -443,6 +457,7 @@ func (w *Worker) SimProperty(prop string, draw func(Chooser, string) *SimCase) f
 // finishRound is called after each rapidRound: writes the replay file of a
 // failure, if there was one.
 func (w *Worker) finishRound(seed uint64, msgs []string) {
+	w.skipRest = false
 	if !w.failing {
 		for _, m := range msgs {
 			if !strings.Contains(m, "only generated") {
@@ -508,6 +523,7 @@ func RunWorker(t *testing.T) {
 	o.Worker, o.Chunk = envInt("VERIF_WORKER", 0), envInt("VERIF_CHUNK", 0)
 	w.Known = loadKnown(os.Getenv("VERIF_KNOWN"))
 	budget := time.Duration(envInt("VERIF_BUDGET_MS", 20000)) * time.Millisecond
+	w.deadline = start.Add(budget + budget/4)
 	perRound := envInt("VERIF_ROUND_CASES", 150)
 	maxViol := envInt("VERIF_MAX_VIOLATIONS", 2)
 	tag := fmt.Sprintf("%s-w%d-c%d", prop, o.Worker, o.Chunk)
